@@ -21,7 +21,10 @@ func num(r *rand.Rand) string {
 
 func smallNum(r *rand.Rand) string { return Pick(r, "0", "1", "2", "3", "10") }
 
-var identPool = []string{"0", "1", "2", "10", "01", "00", "a", "A", "b", "alpha", "beta", "rc", "RC", "a-b", "x-1", "1a", "a1", "-", "--", "2147483647", "2147483648", "9223372036854775807", "9223372036854775808", "0a", "x", "X", "pre", "dev", "Beta", "beta", "Alpha", "ALPHA", "rC", "b-A", "B-a", "Zeta", "zeta", "Z", "z", "aZ", "az"}
+var identPool = []string{"0", "1", "2", "10", "01", "00", "a", "A", "b", "alpha", "beta", "rc", "RC", "a-b", "x-1", "1a", "a1", "-", "--", "2147483647", "2147483648", "9223372036854775807", "9223372036854775808", "0a", "x", "X", "pre", "dev", "Beta", "beta", "Alpha", "ALPHA", "rC", "b-A", "B-a", "Zeta", "zeta", "Z", "z", "aZ", "az", "99999999999999999999", "100000000000000000000", "5a", "9000000000", "10000000000", "5a3f", "18446744073709551616"}
+
+// IdentPool returns the prerelease identifier pool.
+func IdentPool() []string { return identPool }
 
 func ident(r *rand.Rand) string { return identPool[r.Intn(len(identPool))] }
 
@@ -302,7 +305,7 @@ func GenCVersion(r *rand.Rand, sys semver.System) string {
 	s := cverNums(r, k)
 	if sys == semver.NuGet && r.Intn(7) == 0 {
 		// NuGet floating versions, incl. a floating fourth component
-		return cverNums(r, 1+r.Intn(3)) + Pick(r, ".*", ".*", ".*-*", "-*", ".0.*", ".*", "."+cverNums(r, 1)+".*")
+		return cverNums(r, 1+r.Intn(3)) + Pick(r, ".*", ".*", ".*-*", "-*", ".0.*", ".*", "."+cverNums(r, 1)+".*", "*-Ab*", "*-rc*", "-Beta*", "*-*", "*")
 	}
 	switch sys {
 	case semver.PyPI:
